@@ -2,6 +2,7 @@ package main
 
 import (
 	"fmt"
+	"time"
 
 	"github.com/philpearl/plenc/plenccore"
 )
@@ -31,20 +32,32 @@ func boundaryU64() []uint64 {
 	return out
 }
 
-func skipOutcome(data []byte, wt plenccore.WireType) (s string) {
-	defer func() {
-		if r := recover(); r != nil {
-			s = "SPanic"
+// skipOutcome runs Skip under a watchdog: a call that does not return within
+// ten seconds is recorded as a hang (its goroutine is abandoned).
+func skipOutcome(data []byte, wt plenccore.WireType) string {
+	done := make(chan string, 1)
+	go func() {
+		defer func() {
+			if r := recover(); r != nil {
+				done <- "SPanic"
+			}
+		}()
+		n, err := plenccore.Skip(data, wt)
+		switch {
+		case err != nil:
+			done <- "SErr"
+		case n < 0:
+			done <- fmt.Sprintf("(SNeg %s)", coqZ(int64(n)))
+		default:
+			done <- fmt.Sprintf("(SOk %d)", n)
 		}
 	}()
-	n, err := plenccore.Skip(data, wt)
-	if err != nil {
-		return "SErr"
+	select {
+	case s := <-done:
+		return s
+	case <-time.After(10 * time.Second):
+		return "SHang"
 	}
-	if n < 0 {
-		return fmt.Sprintf("(SNeg %s)", coqZ(int64(n)))
-	}
-	return fmt.Sprintf("(SOk %d)", n)
 }
 
 func runC18(c *Ctx) {
@@ -90,8 +103,16 @@ func runC18(c *Ctx) {
 			fmt.Sprintf("readraw %x", bs), fmt.Sprintf("readraw/n%d", rn), len(bs) > 1)
 		c.count(fmt.Sprintf("readraw_n_%d", rn))
 	}
+	hangs := 0
 	skip := func(bs []byte, wt plenccore.WireType) {
+		if hangs >= 3 {
+			// each abandoned call keeps a core busy: three hangs are evidence enough
+			return
+		}
 		o := skipOutcome(bs, wt)
+		if o == "SHang" {
+			hangs++
+		}
 		c.add(fmt.Sprintf("KSkip %s %d %s", coqBytes(bs), wt, o),
 			fmt.Sprintf("skip wt=%d %x", wt, bs), fmt.Sprintf("skip/wt%d/%.4s/len%d", wt, o, min(len(bs), 12)), len(bs) > 0)
 		c.count(fmt.Sprintf("skip_wt_%d_%.5s", wt, o))
@@ -155,6 +176,17 @@ func runC18(c *Ctx) {
 			skip(b, plenccore.WTVarInt)
 			skip(append(b, 1, 2, 3), plenccore.WTLength)
 			skip(append(b, 1, 2, 3), plenccore.WTSlice)
+		}
+	}
+	// lengths and counts around 2^63 / 2^64 (the conversion to int wraps)
+	for _, hv := range []uint64{1<<63 - 2, 1<<63 - 1, 1 << 63, 1<<63 + 1, ^uint64(0) - 9, ^uint64(0) - 1, ^uint64(0), 1 << 62, 1<<32 - 1, 1 << 32} {
+		h := plenccore.AppendVarUint(nil, hv)
+		for _, tail := range [][]byte{nil, {1}, {1, 2, 3}, {0x80}, h} {
+			skip(append(append([]byte{}, h...), tail...), plenccore.WTLength)
+			skip(append(append([]byte{}, h...), tail...), plenccore.WTSlice)
+			skip(append(append([]byte{0x01}, h...), tail...), plenccore.WTSlice)             // count 1, huge entry length
+			skip(append(append([]byte{0x02, 0x01, 0x07}, h...), tail...), plenccore.WTSlice) // count 2, second entry huge
+			skip(append(append(append([]byte{}, h...), h...), tail...), plenccore.WTSlice)   // huge count, huge entry length
 		}
 	}
 	// structured skip inputs: well-formed fields of every wire type followed by junk, and truncations
